@@ -84,11 +84,19 @@ def alphabet(expr_ser):
     return sorted(toks)
 
 
-def mk_token(kind, val, i):
-    from pygments.token import Keyword, Name, Punctuation, Operator, Literal
+def mk_token(kind, val, i, rnd=None):
+    """a real Token of the given class; with `rnd`, of a random SUB-type of that class (the model
+    only knows the class: `Token.is_*` are subtree tests, so sub-types must not matter - e.g. the
+    TypeScript lexer emits `Keyword.Type` for any word after a colon, seeded change C15-4)"""
+    from pygments.token import Keyword, Name, Punctuation, Operator, Literal, Generic, Other, Error, Number
     from codelimit.common.Location import Location
     from codelimit.common.Token import Token
-    tt = {0: Literal, 1: Keyword, 2: Name, 3: Punctuation, 4: Operator}[kind]
+    sub = {0: [Literal, Number, Number.Integer, Generic, Other, Error, Literal.Date],
+           1: [Keyword, Keyword.Type, Keyword.Declaration, Keyword.Reserved, Keyword.Constant, Keyword.Namespace, Keyword.Pseudo],
+           2: [Name, Name.Function, Name.Class, Name.Builtin, Name.Other, Name.Decorator, Name.Attribute, Name.Label, Name.Variable.Magic],
+           3: [Punctuation, Punctuation.Marker],
+           4: [Operator, Operator.Word]}[kind]
+    tt = rnd.choice(sub) if rnd is not None else sub[0]
     return Token(Location(1, i + 1), tt, val)
 
 
@@ -97,14 +105,19 @@ def real_run(args):
     from codelimit.common.gsm import matcher
     expr = captured()[idx][2]
     out = []
+    import random
     for seq in seqs:
-        toks = [mk_token(k, v, i) for i, (k, v) in enumerate(seq)]
-        try:
-            ps = matcher.find_all(expr, toks)
-            r = "ok %d" % len(ps) + "".join(" %d %d %d" % (p.start, p.end, len(p.tokens)) for p in ps)
-        except Exception as e:  # noqa
-            r = "err %d" % engine_real.err_code(e)
-        out.append(r)
+        rs = []
+        # once with the root type of every class, once with random sub-types (seeded by the sequence)
+        for rnd in (None, random.Random(repr(seq))):
+            toks = [mk_token(k, v, i, rnd) for i, (k, v) in enumerate(seq)]
+            try:
+                ps = matcher.find_all(expr, toks)
+                r = "ok %d" % len(ps) + "".join(" %d %d %d" % (p.start, p.end, len(p.tokens)) for p in ps)
+            except Exception as e:  # noqa
+                r = "err %d" % engine_real.err_code(e)
+            rs.append(r)
+        out.append(rs[0] if rs[0] == rs[1] else rs[1] + "   [sub-typed tokens; root-typed: " + rs[0] + "]")
     return out
 
 
